@@ -78,6 +78,13 @@ def gen(rng, tier):
             elif k == "remove":
                 nt = nt or name in wrote
             ops.append(o)
+            if k == "remove" and rng.chance(0.5):
+                # look at the container the element was removed from (emptied lists stay lists)
+                ops.append({"op": "count", "h": h, "name": name.split(sep)[0] if sep else name})
+                if idx >= 0 and rng.chance(0.6):
+                    ops.append({"op": "remove", "h": h, "name": name, "idx": 0, "opts": list(base_opts)})
+                    ops.append({"op": "remove", "h": h, "name": name, "idx": 0, "opts": list(base_opts)})
+                    ops.append({"op": "count", "h": h, "name": name.split(sep)[0] if sep else name})
             kinds.add(k + ("@h" if h else "") + ("#" if idx >= 0 else "") + ("." if sep and sep in name else ""))
             if k == "child":
                 # the worker appends a handle only on success; we learn that from the run, so the generator
